@@ -3,6 +3,7 @@ import WuffsVerif.Model.ObjInit
 import WuffsVerif.Model.Choose
 import WuffsVerif.Model.JpegIdctRange
 import WuffsVerif.Model.HashSpec
+import WuffsVerif.Model.CoroFrame
 /-! Line driver for C09.  Ops:
   init <options> <selfNull 0|1> <sizeof_star_self> <wuffs_version> <prior> <obj…>
         prior = z | c:<hh> | r:<seed> | q:<seed> (r with zero magic bytes) | h:<hex>
@@ -17,6 +18,8 @@ import WuffsVerif.Model.HashSpec
   adler32|crc32|crc64 <hex> -> v <decimal>
   adler32x|crc32x|crc64x <seg>…   seg = h:<hex> | r:<hh>*<count>   (long worst-case inputs, e.g. runs of 0xFF)
      -> v <decimal>
+  coroframe <func> loads=<n> saves=<n> samevars=<b> guarded=<b> atsuspend=<b> pwrites=<b> scratch=<b>
+     -> conforms | violates:<condition>      (shape of a generated coroutine function, Model/CoroFrame.lean)
 -/
 open WuffsVerif WuffsVerif.Line
 
@@ -194,6 +197,22 @@ def hashSegOp (f : List UInt8 → Nat) (l : List String) : String :=
   | some bs => "v " ++ toString (f bs)
   | none => "bad-op"
 
+def kvNat (l : List String) (key : String) : Option Nat :=
+  (l.find? (fun s => s.startsWith (key ++ "="))).bind (fun s => (s.drop (key.length + 1)).toString.toNat?)
+
+open WuffsVerif.CoroFrame in
+def coroOp (l : List String) : String :=
+  match l with
+  | _name :: rest =>
+    match kvNat rest "loads", kvNat rest "saves", kvNat rest "samevars", kvNat rest "guarded",
+        kvNat rest "atsuspend", kvNat rest "pwrites", kvNat rest "scratch" with
+    | some lo, some sa, some sv, some g, some a, some p, some sc =>
+      match shapeViolation ⟨lo, sa, sv != 0, g != 0, a != 0, p != 0, sc != 0⟩ with
+      | none => "conforms"
+      | some w => "violates:" ++ w
+    | _, _, _, _, _, _, _ => "bad-op"
+  | _ => "bad-op"
+
 def step (l : List String) : String :=
   match l with
   | "init" :: rest => initOp rest
@@ -203,6 +222,7 @@ def step (l : List String) : String :=
   | "adler32" :: rest => hashOp HashSpec.adler32 rest
   | "crc32" :: rest => hashOp HashSpec.crc32 rest
   | "crc64" :: rest => hashOp HashSpec.crc64 rest
+  | "coroframe" :: rest => coroOp rest
   | "adler32x" :: rest => hashSegOp HashSpec.adler32 rest
   | "crc32x" :: rest => hashSegOp HashSpec.crc32 rest
   | "crc64x" :: rest => hashSegOp HashSpec.crc64 rest
